@@ -19,9 +19,45 @@
 
 package sql
 
-import "time"
+import (
+	"database/sql/driver"
+	"time"
+
+	"seata.apache.org/seata-go/pkg/datasource/sql/types"
+)
 
 // VerifSetXABranchExecutionTimeout sets the branch execution timeout of the XA connections. The
 // configuration key xa_branch_execution_timeout cannot be loaded from a file (it lives in an unexported
 // field of XAConfig), so without this the one minute default is the only value a harness can have.
 func VerifSetXABranchExecutionTimeout(d time.Duration) { xaConnTimeout = d }
+
+// VerifXAHold is one XAConn over a caller-supplied target connection and a resource of its own, for
+// stepping the hold / pool-close / release / force-close life cycle call by call (specs/XAHold.tla).
+type VerifXAHold struct {
+	c   *XAConn
+	res *DBResource
+	id  string
+}
+
+// VerifNewXAHold builds the connection the way a MySQL XA data source has it after XA PREPARE went through.
+func VerifNewXAHold(target driver.Conn, xid string, branchID uint64) *VerifXAHold {
+	res := &DBResource{dbType: types.DBTypeMySQL, shouldBeHeld: true}
+	c := &XAConn{Conn: &Conn{res: res, targetConn: target, txCtx: types.NewTxCtx(), dbType: types.DBTypeMySQL}}
+	c.xaBranchXid = XaIdBuild(xid, branchID)
+	return &VerifXAHold{c: c, res: res, id: c.xaBranchXid.String()}
+}
+
+func (h *VerifXAHold) Keep()         { h.c.keepIfNecessary() }
+func (h *VerifXAHold) IsValid() bool { return h.c.IsValid() }
+func (h *VerifXAHold) Close() error  { return h.c.Close() }
+func (h *VerifXAHold) Release()      { h.c.releaseIfNecessary() }
+func (h *VerifXAHold) Force() error  { return h.c.CloseForce() }
+
+// State is the abstract state of the specification: kept, poolClosed, physClosed, and whether the keeper has the branch
+func (h *VerifXAHold) State() (kept, poolClosed, physClosed, keeper bool) {
+	h.c.holdMu.Lock()
+	kept, poolClosed, physClosed = h.c.isConnKept, h.c.poolClosed, h.c.physClosed
+	h.c.holdMu.Unlock()
+	_, keeper = h.res.Lookup(h.id)
+	return
+}
